@@ -56,6 +56,11 @@ def r_index_key(ctx):
             why = own_index(f, t)
             if why is None and f.path.startswith('upgrade::') and upgrade_loop_index(f, t):
                 why = 'loop variable over every index 0..=65535 (per-index upgrade)'
+            if why is None and f.path.startswith('upgrade::'):
+                t0 = strip(t)
+                if t0[0] == 'field' and t0[2] == 'index' and any(x[0] == 'call' and x[1].endswith('Iterator::next') and any(
+                        y[0] == 'call' and y[1].startswith('heed::Database') and y[1].endswith('::iter') for y in walk(x)) for x in walk(t0)):
+                    why = 'upgrade: the index of the source entry being rewritten (keys keep their index)'
             if why is None and 'heed::BytesDecode' in f.path and any(s[0] == 'call' and s[1].endswith('read_u16') for s in walk(t)):
                 why = 'key decoder: the index is the one stored in the key bytes'
             if why:
